@@ -6,7 +6,7 @@ BASE = {
     "HasDefault": "<-cHasDefault", "HasUnmock": "<-cHasUnmock", "PartialByDef": "<-cPartialByDef",
     "RetOwned": "<-cRetOwned", "Required": "<-cRequired", "HasMutexApi": True,
     "StrictFam": "<-cStrictBoth", "ScriptFam": "<-cNoScripts", "UpFam": "<-cNoUp", "Vias": "<-cViaDrop",
-    "EmitOn": True, "OnlyMentioned": True, "StopAfterDeviation": False, "MaxCalls": 3, "MaxLeaves": 2,
+    "EmitOn": True, "OnlyMentioned": True, "StopAfterDeviation": False, "PermOn": False, "MaxCalls": 3, "MaxLeaves": 2,
 }
 ALL_INV = ["FirstMatchOnly", "CountIsSelections", "KthResponse", "SingleDelivery", "OrderedPrefix",
            "SlotsOnlyByOrdered", "FallbackTable", "NoFabrication", "ErrorsRemembered", "VerdictIff"]
@@ -74,5 +74,13 @@ PLANS = {
                                  ScriptFam="<-cScriptsDeep"), {"clones": 1}, {"num": 4000, "depth": 6})],
         "thorough": [("c16t", inst(LeafFam="<-C16Leaves", MaxLeaves=3, MaxCalls=4, OnlyMentioned=False, Method='{"r0", "r1", "d1"}',
                                    ScriptFam="<-cScriptsDeep", UpFam="<-cUpBoth"), {"clones": 2}, {"num": 500000, "depth": 8})],
+    },
+    "C18": {
+        "quick": [("c18q", inst(LeafFam="<-C18LeavesQ", MaxLeaves=3, MaxCalls=2, PermOn=True, StrictFam="<-cStrictOnly",
+                                Method='{"r0", "r1", "r2", "g8", "g16"}'), {"clones": 2, "twin": True}, None)],
+        "thorough": [("c18t", inst(LeafFam="<-C18Leaves", MaxLeaves=2, MaxCalls=3, PermOn=True,
+                                   Method='{"r0", "r1", "r2", "g8", "g16"}'), {"clones": 3, "twin": True}, None),
+                     ("c18t4", inst(LeafFam="<-C18LeavesQ", MaxLeaves=4, MaxCalls=6, PermOn=True,
+                                    Method='{"r0", "r1", "r2", "g8", "g16"}'), {"clones": 3, "twin": True}, {"num": 200000, "depth": 9})],
     },
 }
